@@ -126,7 +126,11 @@ Section Steps.
   Variable cfg : config.
   Variable j : jout.
   Variable sp : sprog.
-  Hypothesis HR : Rel cfg j sp.
+  (* Only the option-independent part of the relation is a section hypothesis: everything in this section
+     holds for every setting of custom_joiner / lazy_branches / transpose_results and is re-used by
+     RefineOpts.v - except the lemmas inside the nested sections `Default..`, which are about the default
+     options (Spec.v) and assume them explicitly. *)
+  Hypothesis HR : Rel_opts cfg j sp.
   Hypothesis Hun : unames = flat_map opt_list (map pat_name (j_pats j)).
 
   Notation n := (j_branch_count j).
@@ -421,6 +425,18 @@ Section Steps.
     exists c0 ds, c = wrap_branch j k b c0 /\
       render_nodes (j_cfg j) b (tree sp b k) ([], wrap_into_block j (RVar (nth b vars ""))) = Ok (ds, c0).
 
+  Lemma plain_builders k sr : is_async cfg = false -> is_spawn cfg && Nat.ltb 1 (active_count j k) = false ->
+    thread_builders j k sr = ([], []).
+  Proof.
+    intros Ha Hs. unfold thread_builders. rewrite (r_cfg_j _ _ _ HR), Ha. cbn [orb].
+    destruct (is_spawn cfg); cbn [negb orb]; [|reflexivity].
+    cbn [andb] in Hs. destruct (active_count j k) as [|[|c]]; try reflexivity. discriminate.
+  Qed.
+
+  Section DefaultPlain.
+    Hypothesis Hopt_joiner : j_joiner j = None.
+    Hypothesis Hopt_lazy : j_lazy j = is_spawn cfg && negb (is_async cfg).
+
   Lemma gen_step_sync_inv k sr step :
     is_async cfg = false -> gen_step j k vars sr = Ok step ->
     exists cs, Forall2 (chain_of k) cs (actives sp k) /\
@@ -429,7 +445,7 @@ Section Steps.
   Proof.
     intros Ha Hg. unfold gen_step in Hg.
     destruct (gen_branches j k vars 0 (j_chains j)) as [[defs cs]| |] eqn:Eb; cbn [rbind] in Hg; try discriminate.
-    rewrite (r_cfg_j _ _ _ HR), Ha, (r_joiner _ _ _ HR) in Hg.
+    rewrite (r_cfg_j _ _ _ HR), Ha, Hopt_joiner in Hg.
     destruct (thread_builders j k sr) as [tbs sjs].
     assert (Hg' : step = tbs ++ defs ++ [SLet (PIdent sr) (RTuple cs)] ++ sjs).
     { destruct (Nat.ltb 1 (active_count j k)); inversion Hg; reflexivity. }
@@ -445,18 +461,10 @@ Section Steps.
   Lemma plain_wrap k b c : is_async cfg = false -> is_spawn cfg && Nat.ltb 1 (active_count j k) = false ->
     wrap_branch j k b c = c.
   Proof.
-    intros Ha Hs. unfold wrap_branch. rewrite (r_lazy _ _ _ HR), (r_cfg_j _ _ _ HR), Ha.
+    intros Ha Hs. unfold wrap_branch. rewrite Hopt_lazy, (r_cfg_j _ _ _ HR), Ha.
     destruct (Nat.ltb 1 (active_count j k)); [|reflexivity].
     rewrite andb_true_r in Hs. rewrite Hs. reflexivity.
   Qed.
-  Lemma plain_builders k sr : is_async cfg = false -> is_spawn cfg && Nat.ltb 1 (active_count j k) = false ->
-    thread_builders j k sr = ([], []).
-  Proof.
-    intros Ha Hs. unfold thread_builders. rewrite (r_cfg_j _ _ _ HR), Ha. cbn [orb].
-    destruct (is_spawn cfg); cbn [negb orb]; [|reflexivity].
-    cbn [andb] in Hs. destruct (active_count j k) as [|[|c]]; try reflexivity. discriminate.
-  Qed.
-
   Lemma step_refines_plain k ρ st step :
     is_async cfg = false -> is_spawn cfg && Nat.ltb 1 (active_count j k) = false ->
     Inv ρ st -> k < j_max j -> gen_step j k vars (n_sr k) = Ok step ->
@@ -492,6 +500,7 @@ Section Steps.
       apply bind_ext. intros ds. unfold vals_tuple. destruct (all_vals ds) as [vs|]; nb; [|reflexivity].
       apply HK; [apply Inv_upd_temp; [exact HI'|apply temp_sr]|apply upd_same].
   Qed.
+  End DefaultPlain.
 
   (* ---- destructuring the step result over the active branches ---- *)
   Lemma bind_pat_var p x d ρ : pat_var p = Some x -> bind_pat p d ρ = Some (upd ρ x d).
@@ -749,12 +758,23 @@ Section Steps.
     - intros _ Ha'. congruence.
   Qed.
 
-  Theorem gen_output_sync e :
+  (* the whole macro around an ARBITRARY meaning S of the steps (Spec.run_body / Spec.spec with the steps
+     abstracted: the options only change the steps) *)
+  Definition run_with (S : state -> comp dval) : comp dval :=
+    let! h := (match sp_handler sp with
+               | Some (k, o) => Vis (EEval o (snap_of sp st0)) (fun v => Ret (Some (k, DV v)))
+               | None => Ret None end) in
+    let! rs := S st0 in
+    handle_results callsem awaitsem sp h rs.
+  Definition spec_with (S : state -> comp dval) : comp dval :=
+    if is_async (sp_cfg sp) then Ret (DFut (let! d := run_with S in to_val d)) else run_with S.
+
+  Theorem gen_output_sync_gen (S : state -> comp dval) e :
     is_async cfg = false ->
     (forall ss se, gen_steps j pats vars 0 (j_max j) = Ok (Some (ss, se)) ->
-                   forall ρ st, Inv ρ st -> D (RBlock ss se) ρ = steps msem dotsem callsem awaitsem sp (j_max j) 0 st) ->
+                   forall ρ st, Inv ρ st -> D (RBlock ss se) ρ = S st) ->
     gen_output j = Ok e ->
-    D e empty_env = spec msem dotsem callsem awaitsem sp.
+    D e empty_env = spec_with S.
   Proof.
     intros Ha Hsteps Hg. unfold gen_output in Hg. cbv zeta in Hg.
     change (map (branch_pat j) (seq 0 n)) with pats in Hg.
@@ -762,8 +782,7 @@ Section Steps.
     destruct (gen_steps j pats vars 0 (j_max j)) as [[[sss se]|]| |] eqn:Egs; cbn [rbind] in Hg; try discriminate.
     rewrite (r_cfg_j _ _ _ HR), Ha in Hg. inversion Hg; clear Hg.
     specialize (Hsteps sss se eq_refl).
-    unfold spec, run_body. rewrite (r_cfg_sp _ _ _ HR), Ha, (rel_max _ _ _ HR), (r_handler _ _ _ HR).
-    fold st0.
+    unfold spec_with, run_with. rewrite (r_cfg_sp _ _ _ HR), Ha, (r_handler _ _ _ HR).
     rewrite den_RBlock, execs_cons, exec_inspect_fn. nb. rewrite !execs_app. nb.
     pose proof (Inv_init_sync Ha) as HI0. cbv zeta in HI0.
     set (ρ0 := upd empty_env n_inspect (DFn inspect_clo)) in *.
@@ -774,7 +793,7 @@ Section Steps.
     rewrite E1. set (ρ1 := if is_spawn cfg then upd ρ0 n_tb DTb else ρ0) in *.
     assert (Hfin : forall ρ2 hd, Inv ρ2 st0 -> (j_handler j <> None -> ρ2 n_h = Some hd) ->
               (let! ρ' := execs [SLet (PIdent n_rs) (RBlock sss se)] ρ2 in D (gen_handle j) ρ') =
-              (let! rs := steps msem dotsem callsem awaitsem sp (j_max j) 0 st0 in
+              (let! rs := S st0 in
                handle_results callsem awaitsem sp
                  (match j_handler j with Some (k, _) => Some (k, hd) | None => None end) rs)).
     { intros ρ2 hd HI2 Hh. cbn [execs]. rewrite exec_SLet_ident, (Hsteps ρ2 st0 HI2). nb. apply bind_ext. intros rs. nb.
@@ -788,6 +807,19 @@ Section Steps.
       + intros _. apply upd_same.
     - cbn [app]. nb.
       apply (Hfin ρ1 (DV VUnit) HI0). congruence.
+  Qed.
+
+  Theorem gen_output_sync e :
+    is_async cfg = false ->
+    (forall ss se, gen_steps j pats vars 0 (j_max j) = Ok (Some (ss, se)) ->
+                   forall ρ st, Inv ρ st -> D (RBlock ss se) ρ = steps msem dotsem callsem awaitsem sp (j_max j) 0 st) ->
+    gen_output j = Ok e ->
+    D e empty_env = spec msem dotsem callsem awaitsem sp.
+  Proof.
+    intros Ha Hsteps Hg.
+    change (spec msem dotsem callsem awaitsem sp)
+      with (spec_with (steps msem dotsem callsem awaitsem sp (max_depth sp) 0)).
+    rewrite (rel_max _ _ _ HR). apply gen_output_sync_gen; assumption.
   Qed.
 
   (* ------------------------------------------------------------------------------------------ *)
@@ -996,6 +1028,9 @@ Section Steps.
     - apply IH; auto. intros b Hb. rewrite set1_length. apply Hlt. right. exact Hb.
   Qed.
 
+  Section DefaultTry.
+    Hypothesis Hopt_transpose : j_transpose j = is_try cfg && negb (is_async cfg).
+
   (* ---- join_steps for the try kinds (sync, default transposition) ---- *)
   Lemma join_steps_try k step next body :
     is_try cfg = true -> is_async cfg = false -> join_steps j k step next pats vars (n_sr k) = Ok body ->
@@ -1014,7 +1049,7 @@ Section Steps.
     else exists t, transposer vars (tuple_of vars) = Some t /\
                    body = (step ++ [extract_step j (n_sr k) pats k], t).
   Proof.
-    intros Ht Ha. unfold join_steps. rewrite (r_cfg_j _ _ _ HR), Ht, (r_transpose _ _ _ HR), Ht, Ha. cbn [andb negb].
+    intros Ht Ha. unfold join_steps. rewrite (r_cfg_j _ _ _ HR), Ht, Hopt_transpose, Ht, Ha. cbn [andb negb].
     destruct (Nat.ltb k (j_max j - 1)).
     - destruct next as [[nss ne]|]; [|discriminate]. intros H; inversion H; subst body. exists nss, ne.
       split; [reflexivity|]. unfold vars. rewrite enum_filter_pairs, (rel_actives _ _ _ HR). reflexivity.
@@ -1060,6 +1095,7 @@ Section Steps.
         * cbn beta. intros b d Hb Hn. rewrite <- Hn. apply (inv_names _ _ HI2).
           apply (rel_actives_lt _ _ _ HR k b Hb).
   Qed.
+  End DefaultTry.
 
   (* ------------------------------------------------------------------------------------------ *)
   (* STAGE 4: the thread kinds (sync): builders, spawn, join                                    *)
@@ -1169,12 +1205,6 @@ Section Steps.
     apply bind_ext. intros ds. destruct (all_vals ds); reflexivity.
   Qed.
 
-  Lemma spawn_wrap k b c : is_async cfg = false -> is_spawn cfg && Nat.ltb 1 (active_count j k) = true ->
-    wrap_branch j k b c = RBlock [] (RGlue (RGlue (RVar (n_j b)) "spawn" [RMoveThunk c]) "unwrap" []).
-  Proof.
-    intros Ha Hs. apply andb_prop in Hs. destruct Hs as [Hs Hm].
-    unfold wrap_branch. rewrite Hm, (r_lazy _ _ _ HR), (r_cfg_j _ _ _ HR), Ha, Hs. reflexivity.
-  Qed.
   Lemma spawn_builders k sr : is_async cfg = false -> is_spawn cfg && Nat.ltb 1 (active_count j k) = true ->
     thread_builders j k sr =
     (map (fun b => SLet (PIdent (n_j b)) (RCall (RVar n_tb) [RUsize b])) (actives sp k),
@@ -1196,6 +1226,16 @@ Section Steps.
     destruct r; cbn [std_unwrap bind]; constructor. exact I.
   Qed.
 
+  Section DefaultSteps.
+    Hypothesis Hopt_joiner : j_joiner j = None.
+    Hypothesis Hopt_lazy : j_lazy j = is_spawn cfg && negb (is_async cfg).
+
+  Lemma spawn_wrap k b c : is_async cfg = false -> is_spawn cfg && Nat.ltb 1 (active_count j k) = true ->
+    wrap_branch j k b c = RBlock [] (RGlue (RGlue (RVar (n_j b)) "spawn" [RMoveThunk c]) "unwrap" []).
+  Proof.
+    intros Ha Hs. apply andb_prop in Hs. destruct Hs as [Hs Hm].
+    unfold wrap_branch. rewrite Hm, Hopt_lazy, (r_cfg_j _ _ _ HR), Ha, Hs. reflexivity.
+  Qed.
   Lemma step_refines_spawn k ρ st step :
     is_async cfg = false -> is_spawn cfg && Nat.ltb 1 (active_count j k) = true ->
     Inv ρ st -> k < j_max j -> gen_step j k vars (n_sr k) = Ok step ->
@@ -1204,7 +1244,7 @@ Section Steps.
       bind (execs step ρ) K = bind (step_result msem dotsem callsem awaitsem sp k st) K'.
   Proof.
     intros Ha Hs HI Hk Hg A K K' HK.
-    destruct (gen_step_sync_inv k (n_sr k) step Ha Hg) as (cs & Hcs & ->).
+    destruct (gen_step_sync_inv Hopt_joiner k (n_sr k) step Ha Hg) as (cs & Hcs & ->).
     rewrite (spawn_builders k _ Ha Hs). cbn [fst snd].
     apply andb_prop in Hs as Hs'. destruct Hs' as [Hsp Hmulti].
     unfold step_result. rewrite (r_cfg_sp _ _ _ HR), Ha.
@@ -1315,7 +1355,7 @@ Section Steps.
   Proof.
     intros Ha Hg. unfold gen_step in Hg.
     destruct (gen_branches j k vars 0 (j_chains j)) as [[defs cs]| |] eqn:Eb; cbn [rbind] in Hg; try discriminate.
-    rewrite (r_cfg_j _ _ _ HR), Ha, (r_joiner _ _ _ HR) in Hg.
+    rewrite (r_cfg_j _ _ _ HR), Ha, Hopt_joiner in Hg.
     destruct (gen_branches_spec k _ _ _ _ _ (r_chains _ _ _ HR) Eb) as [Hd Hc].
     rewrite (rel_spec_branches sp k) in Hd, Hc. rewrite flat_map_map in Hd. cbn [fst snd] in Hd.
     apply Forall2_map_r in Hc.
@@ -1329,7 +1369,7 @@ Section Steps.
     wrap_branch j k b c =
     if Nat.ltb 1 (active_count j k) && is_spawn cfg then RBlock [] (RCall (RVar n_spawn_tokio) [RBoxPin c]) else c.
   Proof.
-    intros Ha. unfold wrap_branch. rewrite (r_lazy _ _ _ HR), (r_cfg_j _ _ _ HR), Ha.
+    intros Ha. unfold wrap_branch. rewrite Hopt_lazy, (r_cfg_j _ _ _ HR), Ha.
     rewrite andb_false_r. destruct (Nat.ltb 1 (active_count j k)); [|reflexivity].
     destruct (is_spawn cfg); reflexivity.
   Qed.
@@ -1375,7 +1415,11 @@ Section Steps.
 
   (* every kind *)
   Theorem step_all : step_hyp.
-  Proof. destruct (is_async cfg) eqn:Ha; [apply step_async|apply step_sync]; exact Ha. Qed.
+  Proof.
+    assert (H : {is_async cfg = true} + {is_async cfg = false}) by (destruct (is_async cfg); auto).
+    destruct H as [Ha|Ha]; [apply step_async|apply step_sync]; exact Ha.
+  Qed.
+  End DefaultSteps.
 
   (* ---- async try kinds: `match __srK { Ok(__srK) => { re-wrap; destructure; next } , Err(err) => Err(err) }` ---- *)
   Lemma enum_from_fst {A} : forall (l : list A) o, map fst (enum_from o l) = seq o (List.length l).
@@ -1438,6 +1482,15 @@ Section Steps.
       destruct rew as [|d1 [|d2 rr]]; cbn in Hrl; try lia. reflexivity.
   Qed.
 
+  Lemma inactive_eq k : filter (fun b => negb (active sp k b)) (seq 0 (List.length (sp_trees sp)))
+                        = filter (fun b => negb (is_active j k b)) (seq 0 n).
+  Proof.
+    rewrite (rel_n_trees _ _ _ HR). apply filter_ext. intros b. rewrite (rel_active _ _ _ HR). reflexivity.
+  Qed.
+
+  Section DefaultTryAsync.
+    Hypothesis Hopt_transpose : j_transpose j = is_try cfg && negb (is_async cfg).
+
   Lemma join_steps_try_async k step next body :
     is_try cfg = true -> is_async cfg = true -> join_steps j k step next pats vars (n_sr k) = Ok body ->
     if Nat.ltb k (j_max j - 1) then
@@ -1457,7 +1510,7 @@ Section Steps.
       end
     else body = (step, RMatchOk (RVar (n_sr k)) n_v (ROk (RTuple [RVar n_v]))).
   Proof.
-    intros Ht Ha. unfold join_steps. rewrite (r_cfg_j _ _ _ HR), Ht, (r_transpose _ _ _ HR), Ht, Ha. cbn [andb negb].
+    intros Ht Ha. unfold join_steps. rewrite (r_cfg_j _ _ _ HR), Ht, Hopt_transpose, Ht, Ha. cbn [andb negb].
     rewrite active_branches_eq.
     destruct (Nat.ltb k (j_max j - 1)).
     - destruct next as [[nss ne]|]; intros H; [|discriminate H]. inversion H; subst body. exists nss, ne.
@@ -1473,12 +1526,6 @@ Section Steps.
         destruct (map bname inact) as [|x xs] eqn:Em; [congruence|].
         destruct (transposer (x :: xs) (tuple_of vars)) as [t|]; intros H; [|discriminate H].
         inversion H. subst inact. exists t. split; reflexivity.
-  Qed.
-
-  Lemma inactive_eq k : filter (fun b => negb (active sp k b)) (seq 0 (List.length (sp_trees sp)))
-                        = filter (fun b => negb (is_active j k b)) (seq 0 n).
-  Proof.
-    rewrite (rel_n_trees _ _ _ HR). apply filter_ext. intros b. rewrite (rel_active _ _ _ HR). reflexivity.
   Qed.
 
   Theorem steps_try_async : step_hyp -> is_try cfg = true -> is_async cfg = true ->
@@ -1541,6 +1588,7 @@ Section Steps.
       intros ρ2 ds HI2 _. nb. rewrite <- den_RBlock.
       apply (IH (S k) nss ne En); [lia|exact HI2].
   Qed.
+  End DefaultTryAsync.
 
   (* ---- the handler, async kinds ---- *)
   Lemma gen_handle_async ρ rs : is_async cfg = true -> ρ n_rs = Some rs ->
@@ -1598,12 +1646,12 @@ Section Steps.
     - intros Hs _. rewrite Hs. apply upd_same.
   Qed.
 
-  Theorem gen_output_async e :
+  Theorem gen_output_async_gen (S : state -> comp dval) e :
     is_async cfg = true ->
     (forall ss se, gen_steps j pats vars 0 (j_max j) = Ok (Some (ss, se)) ->
-                   forall ρ st, Inv ρ st -> D (RBlock ss se) ρ = steps msem dotsem callsem awaitsem sp (j_max j) 0 st) ->
+                   forall ρ st, Inv ρ st -> D (RBlock ss se) ρ = S st) ->
     gen_output j = Ok e ->
-    D e empty_env = spec msem dotsem callsem awaitsem sp.
+    D e empty_env = spec_with S.
   Proof.
     intros Ha Hsteps Hg. unfold gen_output in Hg. cbv zeta in Hg.
     change (map (branch_pat j) (seq 0 n)) with pats in Hg.
@@ -1611,9 +1659,9 @@ Section Steps.
     destruct (gen_steps j pats vars 0 (j_max j)) as [[[sss se]|]| |] eqn:Egs; cbn [rbind] in Hg; try discriminate.
     rewrite (r_cfg_j _ _ _ HR), Ha in Hg. inversion Hg; clear Hg.
     specialize (Hsteps sss se eq_refl).
-    unfold spec. rewrite (r_cfg_sp _ _ _ HR), Ha.
+    unfold spec_with. rewrite (r_cfg_sp _ _ _ HR), Ha.
     rewrite den_RBoxPin, den_RAsyncMove. f_equal. f_equal. rewrite <- bind_assoc. f_equal.
-    unfold run_body. rewrite (rel_max _ _ _ HR), (r_handler _ _ _ HR). fold st0.
+    unfold run_with. rewrite (r_handler _ _ _ HR).
     cbn [app]. rewrite execs_cons, exec_SUseFutures. nb. rewrite !execs_app. nb.
     pose proof (Inv_init_async Ha) as HI0.
     assert (E1 : forall A (K : env -> comp A),
@@ -1623,7 +1671,7 @@ Section Steps.
     rewrite E1. set (ρ1 := if is_spawn cfg then upd empty_env n_spawn_tokio DSpawnTokio else empty_env) in *.
     assert (Hfin : forall ρ2 hd, Inv ρ2 st0 -> (j_handler j <> None -> ρ2 n_h = Some hd) ->
               (let! ρ' := execs [SLet (PIdent n_rs) (RBlock sss se)] ρ2 in D (gen_handle j) ρ') =
-              (let! rs := steps msem dotsem callsem awaitsem sp (j_max j) 0 st0 in
+              (let! rs := S st0 in
                handle_results callsem awaitsem sp
                  (match j_handler j with Some (k, _) => Some (k, hd) | None => None end) rs)).
     { intros ρ2 hd HI2 Hh. cbn [execs]. rewrite exec_SLet_ident, (Hsteps ρ2 st0 HI2). nb. apply bind_ext. intros rs. nb.
@@ -1637,5 +1685,18 @@ Section Steps.
       + intros _. apply upd_same.
     - cbn [app]. nb.
       apply (Hfin ρ1 (DV VUnit) HI0). congruence.
+  Qed.
+
+  Theorem gen_output_async e :
+    is_async cfg = true ->
+    (forall ss se, gen_steps j pats vars 0 (j_max j) = Ok (Some (ss, se)) ->
+                   forall ρ st, Inv ρ st -> D (RBlock ss se) ρ = steps msem dotsem callsem awaitsem sp (j_max j) 0 st) ->
+    gen_output j = Ok e ->
+    D e empty_env = spec msem dotsem callsem awaitsem sp.
+  Proof.
+    intros Ha Hsteps Hg.
+    change (spec msem dotsem callsem awaitsem sp)
+      with (spec_with (steps msem dotsem callsem awaitsem sp (max_depth sp) 0)).
+    rewrite (rel_max _ _ _ HR). apply gen_output_async_gen; assumption.
   Qed.
 End Steps.
